@@ -90,20 +90,16 @@ Section Hash.
 
   Definition match_chain (oh xh : bytes) : bool := str_eq oh xh.
 
+  (* the chain of Cover (after fix be6eb2f: a name hash equal to the owner hash is not covered) *)
   Definition cover_chain (oh nh xh : bytes) : bool :=
     if str_eq oh nh && negb (str_eq xh oh) then true         (* empty interval *)
     else if str_gt oh nh then                                 (* end of zone *)
       (if str_gt xh oh then true else str_lt xh nh)
-    else if str_lt xh oh then false
+    else if negb (str_gt xh oh) then false                    (* nameHash <= ownerHash *)
     else str_lt xh nh.
 
-  (* Cover with the proposed one-character fix (nameHash <= ownerHash is not covered) *)
-  Definition cover_chain_fixed (oh nh xh : bytes) : bool :=
-    if str_eq oh nh && negb (str_eq xh oh) then true
-    else if str_gt oh nh then
-      (if str_gt xh oh then true else str_lt xh nh)
-    else if negb (str_gt xh oh) then false
-    else str_lt xh nh.
+  (* NextDomain is compared in upper case (fix c605f43) *)
+  Definition next_hash_text (r : nsec3) : bytes := upper_bytes (n3_next r).
 
   Definition nsec3_match (r : nsec3) (name : list label) : bool :=
     let xh := hash_name name (n3_alg r) (n3_iter r) (n3_salt r) in
@@ -112,11 +108,16 @@ Section Hash.
     | oh :: zone => if in_zone zone name then match_chain (owner_hash_text oh) xh else false
     end.
 
+  (* Cover is false when the name has no hash (fix 17b14b3) *)
   Definition nsec3_cover (r : nsec3) (name : list label) : bool :=
     let xh := hash_name name (n3_alg r) (n3_iter r) (n3_salt r) in
-    match n3_owner r with
-    | [] | [_] => false
-    | oh :: zone => if in_zone zone name then cover_chain (owner_hash_text oh) (n3_next r) xh else false
+    match xh with
+    | [] => false
+    | _ =>
+      match n3_owner r with
+      | [] | [_] => false
+      | oh :: zone => if in_zone zone name then cover_chain (owner_hash_text oh) (next_hash_text r) xh else false
+      end
     end.
 End Hash.
 
